@@ -6,7 +6,7 @@ LEVEL = "model_checking"
 
 def run(ctx):
     consts = {"MaxIn": 2, "MaxOut": 1, "MaxTurns": 2} if ctx.quick else {"MaxIn": 3, "MaxOut": 1, "MaxTurns": 2}
-    cov = p_pipeline.run_family(ctx, "C01", "c01", consts)
+    cov = p_pipeline.run_family(ctx, "C01", "c01", consts, extra_scripts=p_pipeline.directed_c01())
     consts2 = {'MaxIn': 2, 'MaxOut': 1, 'MaxTurns': 3} if ctx.quick else {'MaxIn': 3, 'MaxOut': 1, 'MaxTurns': 3}
     cov2 = p_pipeline.run_family(ctx, "C01", "c01v2", consts2)
     cov = p_pipeline.merge_cov(cov, cov2)
